@@ -33,4 +33,7 @@ def check(model, tier):
     from ..rules import rangesql
 
     rangesql.r12_7_range_membership(ctx)
+    from ..rules.foundation import run_foundation
+
+    run_foundation(ctx, "12")
     return run
